@@ -3,6 +3,8 @@ S = "sktime/forecasting/model_selection/_split.py"
 FH = "sktime/forecasting/base/_fh.py"
 R = "sktime/forecasting/compose/_reduce.py"
 SK = "sktime/forecasting/base/_sktime.py"
+MF = "sktime/performance_metrics/forecasting/_functions.py"
+MC = "sktime/performance_metrics/forecasting/_classes.py"
 MUTANTS = [
  ("C01", "get_end_plus1", S, "end = n_timepoints - fh_max + 1", "end = n_timepoints - fh_max + 2"),
  ("C01", "sliding_test_shift", S, "            train = np.arange(split_point - window_length, split_point)\n            test = split_point + fh - 1", "            train = np.arange(split_point - window_length, split_point)\n            test = split_point + fh"),
@@ -25,4 +27,14 @@ MUTANTS = [
  ("C05", "last_window_shifted", SK, "start = _shift(cutoff, by=-self.window_length_ + 1)", "start = _shift(cutoff, by=-self.window_length_)"),
  ("C05", "exog_order_time_major", R, "return yt, Xt.reshape(Xt.shape[0], -1)", "return yt, Xt.transpose(0, 2, 1).reshape(Xt.shape[0], -1)"),
  ("C05", "drop_last_full_window", R, "Zt = Zt[effective_window_length:-effective_window_length]", "Zt = Zt[effective_window_length:-effective_window_length - 1]"),
+ ("C06", "rel_eps_clamp_dropped", MF, "np.maximum((y_true - y_pred_benchmark), EPS),", "np.maximum((y_true - y_pred_benchmark), 0.0),"),
+ ("C06", "symmetric_ignored_mspe", MF, "        np.square(_percentage_error(y_true, y_pred, symmetric=symmetric)),\n        weights=horizon_weight,", "        np.square(_percentage_error(y_true, y_pred)),\n        weights=horizon_weight,"),
+ ("C06", "weights_ignored_mrae", MF, "            np.abs(_relative_error(y_true, y_pred, y_pred_benchmark)),\n            weights=horizon_weight,", "            np.abs(_relative_error(y_true, y_pred, y_pred_benchmark)),\n            weights=None,"),
+ ("C06", "mase_sp_offbyone", MF, "    y_pred_naive = y_train[:-sp]\n    mae_naive = mean_absolute_error(y_train[sp:], y_pred_naive, multioutput=multioutput)", "    y_pred_naive = y_train[:-1]\n    mae_naive = mean_absolute_error(y_train[1:], y_pred_naive, multioutput=multioutput)"),
+ ("C06", "asym_threshold_le", MF, "y_true - y_pred < asymmetric_threshold,", "y_true - y_pred <= asymmetric_threshold,"),
+ ("C06", "smape_no_factor2_when_zero_truth", MF, "            2\n            * np.abs(y_true - y_pred)", "            np.where(y_true == 0, 1, 2)\n            * np.abs(y_true - y_pred)"),
+ ("C06", "mdape_fix_reverted", MF, "            np.abs(_percentage_error(y_true, y_pred, symmetric=symmetric)),\n            sample_weight=horizon_weight,", "            np.abs(_percentage_error(y_pred, y_true, symmetric=symmetric)),\n            sample_weight=horizon_weight,"),
+ ("C06", "class_drops_square_root", MC, "return self._func(y_true, y_pred, square_root=self.square_root, **kwargs)", "return self._func(y_true, y_pred, **kwargs)"),
+ ("C06", "gmrse_sqrt_before_gmean_eps", MF, "    relative_errors = np.square(_relative_error(y_true, y_pred, y_pred_benchmark))", "    relative_errors = np.square(_relative_error(y_true, y_pred, y_pred_benchmark)) + 0.0 * EPS + (y_true == y_pred) * 0.0 + (np.abs(y_true - y_pred) < 1e-3) * 1e-12"),
+ ("C06", "msse_multioutput_first_col", MF, "    mse_naive = mean_squared_error(y_train[sp:], y_pred_naive, multioutput=multioutput)", "    mse_naive = mean_squared_error(y_train[sp:, :1], y_pred_naive[:, :1], multioutput=multioutput)"),
 ]
